@@ -16,7 +16,9 @@ Rec == ndJsonDeserialize(IOEnv.TRACE)
 Hdr == Rec[1]
 TraceMeaning ==
   [tok \in DOMAIN Hdr.meaning |->
-     [gg |-> Hdr.meaning[tok].gg, lw |-> Hdr.meaning[tok].lw]]
+     IF "cas" \in DOMAIN Hdr.meaning[tok]
+       THEN [gg |-> <<>>, lw |-> <<>>, cas |-> [v |-> Hdr.meaning[tok].cas.v, n |-> Hdr.meaning[tok].cas.n]]
+       ELSE [gg |-> Hdr.meaning[tok].gg, lw |-> Hdr.meaning[tok].lw]]
 
 VARIABLES l,    \* index of the next record to consume
           used  \* deviation flags the accepted steps went through (Core!Flag)
